@@ -58,15 +58,19 @@ Record fixes := {
   (* generate_block_hash: `block_number.wrapping_add(1)` (true), `block_number + 1` (false) *)
   fx_hash_wrap : bool;
   (* bip322_verify: the two witness shapes the library panics on are refused first (true) *)
-  fx_witness_guard : bool
+  fx_witness_guard : bool;
+  (* eth_estimateGas bisection: `upper.saturating_sub(lower) > GAS_PER_BYTE`,
+     `lower + (upper - lower) / 2` (true); `lower + GAS_PER_BYTE < upper`,
+     `(lower + upper) / 2` (false) *)
+  fx_bisect_sub : bool
 }.
 
 Definition AS_FOUND : fixes :=
   {| fx_logs := false; fx_txcount := false; fx_mine_zero := false; fx_pk_len := false;
-     fx_sat_checked := false; fx_hash_wrap := false; fx_witness_guard := false |}.
+     fx_sat_checked := false; fx_hash_wrap := false; fx_witness_guard := false; fx_bisect_sub := false |}.
 Definition REPAIRED : fixes :=
   {| fx_logs := true; fx_txcount := true; fx_mine_zero := true; fx_pk_len := true;
-     fx_sat_checked := true; fx_hash_wrap := true; fx_witness_guard := true |}.
+     fx_sat_checked := true; fx_hash_wrap := true; fx_witness_guard := true; fx_bisect_sub := true |}.
 
 (* >>> the one line to flip <<< *)
 Definition CURRENT09 : fixes := REPAIRED.
@@ -304,36 +308,42 @@ Section Bisect.
   (* one read_contract with the given gas limit: None = Err(..), Some status *)
   Variable probe : St -> N -> St * res (option bool).
 
-  (* `while lower + GAS_PER_BYTE < upper { .. }`; None = the fuel ran out.
+  (* the loop guard and the midpoint, in the two forms *)
+  Definition bisect_guard (fx : fixes) (m : ovf) (gpb lo hi : N) : res bool :=
+    if fx_bisect_sub fx then Ok (gpb <? hi - lo)                   (* saturating_sub *)
+    else do x <- u64_add m lo gpb; Ok (x <? hi).
+  Definition bisect_mid (fx : fixes) (m : ovf) (lo hi : N) : res N :=
+    if fx_bisect_sub fx then do d <- u64_sub m hi lo; u64_add m lo (d / 2)
+    else do sum <- u64_add m lo hi; Ok (sum / 2).
+
+  (* `while <guard> { estimated = <mid>; .. }`; None = the fuel ran out.
      Result: the state, the final upper limit, the number of iterations. *)
-  Fixpoint bisect (fuel : nat) (m : ovf) (gpb : N) (st : St) (lo hi iters : N) : option (St * res (N * N)) :=
+  Fixpoint bisect (fuel : nat) (fx : fixes) (m : ovf) (gpb : N) (st : St) (lo hi iters : N) : option (St * res (N * N)) :=
     match fuel with
     | O => None
     | S f =>
-        match u64_add m lo gpb with
+        match bisect_guard fx m gpb lo hi with
         | Panic => Some (st, Panic)
         | Err => Some (st, Err)
-        | Ok x =>
-            if x <? hi then
-              match u64_add m lo hi with
-              | Panic => Some (st, Panic)
-              | Err => Some (st, Err)
-              | Ok sum =>
-                  let mid := sum / 2 in
-                  let '(st', r) := probe st mid in
-                  match r with
-                  | Panic => Some (st', Panic)
-                  | Err => Some (st', Err)
-                  | Ok (Some true) => bisect f m gpb st' lo mid (iters + 1)
-                  | Ok _ =>
-                      match u64_add m mid 1 with
-                      | Ok l' => bisect f m gpb st' l' hi (iters + 1)
-                      | Err => Some (st', Err)
-                      | Panic => Some (st', Panic)
-                      end
-                  end
-              end
-            else Some (st, Ok (hi, iters))
+        | Ok false => Some (st, Ok (hi, iters))
+        | Ok true =>
+            match bisect_mid fx m lo hi with
+            | Panic => Some (st, Panic)
+            | Err => Some (st, Err)
+            | Ok mid =>
+                let '(st', r) := probe st mid in
+                match r with
+                | Panic => Some (st', Panic)
+                | Err => Some (st', Err)
+                | Ok (Some true) => bisect f fx m gpb st' lo mid (iters + 1)
+                | Ok _ =>
+                    match u64_add m mid 1 with
+                    | Ok l' => bisect f fx m gpb st' l' hi (iters + 1)
+                    | Err => Some (st', Err)
+                    | Panic => Some (st', Panic)
+                    end
+                end
+            end
         end
     end.
 End Bisect.
@@ -773,7 +783,7 @@ Section Handlers.
             | Err => (e1, Err)
             | Ok out =>
                 if negb (status out) then (e1, Err) else
-                match bisect (fun st g => h_probe st i g) 65 m GPB e1 21000 LIMIT 0 with
+                match bisect (fun st g => h_probe st i g) 65 fx m GPB e1 21000 LIMIT 0 with
                 | None => (e1, Err)           (* cannot happen: see estimate_gas_terminates *)
                 | Some (e2, Panic) => (e2, Panic)
                 | Some (e2, Err) => (e2, Err)
